@@ -72,7 +72,7 @@ def sample2d_ok(F, X, Y, mask, undef_value, outside_value, result) -> bool:
             continue
         want = float((w * f).sum() / sw)
         scale = max(1.0, float(np.max(np.abs(f))))
-        if abs(r - want) > 1e-10 * scale:
+        if not (abs(r - want) <= 1e-10 * scale):
             _st["why"] = f"({x},{y}) -> {r}, bilinear value {want}"
             return False
         used = f[w > 0]
@@ -191,7 +191,7 @@ def _case_sample2d(case, S, V, sit, cnt, keys):
         if kind == 0 and mask is None:
             ins = (X >= 0) & (X < imax - 1) & (Y >= 0) & (Y < jmax - 1)
             want = a + b * X + c * Y + d * X * Y
-            if np.any(np.abs(np.asarray(res)[ins] - want[ins]) > 1e-9 * (1 + np.abs(want[ins]))):
+            if np.any(~(np.abs(np.asarray(res)[ins] - want[ins]) <= 1e-9 * (1 + np.abs(want[ins])))):
                 V.append(C.viol("sample2D not exact on a bilinear field", X=X.tolist(), Y=Y.tolist()))
             _bump(sit, "exact_bilinear_field", int(ins.sum()))
         if mask is not None:
@@ -266,7 +266,7 @@ def _case_roundtrip(case, R, wd, V, sit, cnt, keys):
         return
     # against the closed-form projection: bilinear interpolation error of a smooth map is tiny but not zero
     tlon, tlat = W.polar_lonlat(X, Y, pol)
-    if np.max(np.abs(lon - tlon)) > 2e-2 or np.max(np.abs(lat - tlat)) > 2e-2:
+    if not (np.max(np.abs(lon - tlon)) <= 2e-2) or not (np.max(np.abs(lat - tlat)) <= 2e-2):
         V.append(C.viol(f"xy2ll is not the grid's lon/lat at the position (max deviation {np.max(np.abs(lon - tlon)):.3g}, {np.max(np.abs(lat - tlat)):.3g} deg)", **desc))
     with Dataset(w["gridfile"]) as nc_:
         LON_, LAT_ = np.array(nc_.variables["lon_rho"][:], float), np.array(nc_.variables["lat_rho"][:], float)
@@ -427,7 +427,7 @@ def _case_e2e(case, wd, V, sit, cnt, keys):
             if "mask" in w:
                 i_, j_ = int(np.floor(x)), int(np.floor(y))
                 _bump(sit, "e2e_lonlat_output_in_cells_with_a_land_corner", int(Mk[j_, i_] * Mk[j_, i_ + 1] * Mk[j_ + 1, i_] * Mk[j_ + 1, i_ + 1] < 1))
-            if abs(r.vars["lon"][k] - wl) > lltol or abs(r.vars["lat"][k] - wa) > lltol:
+            if not (abs(r.vars["lon"][k] - wl) <= lltol) or not (abs(r.vars["lat"][k] - wa) <= lltol):
                 V.append(C.viol(f"record at {r.time}: pid {r.pid[k]} at ({x:.5f},{y:.5f}) has lon/lat ({r.vars['lon'][k]:.7f},{r.vars['lat'][k]:.7f}) in the file, "
                                 f"bilinear interpolation of lon_rho/lat_rho there is ({wl:.7f},{wa:.7f})", **desc))
                 break
